@@ -87,6 +87,24 @@ Theorem gc_prefix_no_delete_on_failed_lookup_partial : forall i : gc_in,
 Proof. exact gc_prefix_partial_l. Qed.
 Print Assumptions gc_prefix_no_delete_on_failed_lookup_partial.
 
+(* Reading note: "the provider no longer lists its instance" is formalised as "does not list it
+   as a live (non-terminating) instance", which is what the code implements (it drops listed
+   instances that carry a DeletionTimestamp). Under the strict reading "does not list it at all"
+   the statement is false for a terminating instance, and true when no listed instance is
+   terminating. *)
+Theorem gc_delete_only_if_unlisted_strict_refuted :
+  exists i ps c, g_provider i = Some ps /\ g_claims i = Some [c] /\
+    In (gc_name c) (fst (gc i)) /\ In (gc_pid c) (map gi_pid ps).
+Proof. exact gc_strict_unlisted_refuted_l. Qed.
+Print Assumptions gc_delete_only_if_unlisted_strict_refuted.
+
+Theorem gc_delete_only_if_unlisted_strict_partial : forall (i : gc_in) ps name,
+  g_provider i = Some ps -> (forall p, In p ps -> gi_deleting p = false) ->
+  In name (fst (gc i)) ->
+  exists cs c, g_claims i = Some cs /\ In c cs /\ gc_name c = name /\ ~ In (gc_pid c) (map gi_pid ps).
+Proof. exact gc_strict_unlisted_partial_l. Qed.
+Print Assumptions gc_delete_only_if_unlisted_strict_partial.
+
 (* ---------------------------------------------------------------- liveness *)
 
 (* A Delete is issued only if Registered is not True and either Launched is not True and has been
